@@ -190,6 +190,39 @@ def run(ctx, repo, tier):
         a0 = eg[0].args[0] if eg[0].args else {k.arg: k.value for k in eg[0].keywords}.get("A")
         inv = 0
         e = cgd.expand(a0) if a0 is not None else None
+        # a scalar rescaling of the operator  (A / s,  A * s,  s * A)  rescales the spectrum: the spectral shift `sigma` is a point of the
+        # spectrum of the matrix that eigs is GIVEN, so it has to be rescaled with it (and the eigenvalues scaled back)
+        scale_txt = None
+        a0_raw = a0
+        if isinstance(a0_raw, ast.Name):
+            d0 = [n.value for n in gd.node.body if isinstance(n, ast.Assign) and len(n.targets) == 1 and isinstance(n.targets[0], ast.Name) and
+                  n.targets[0].id == a0_raw.id]
+            a0_raw = d0[-1] if d0 else a0_raw
+        if isinstance(a0_raw, ast.BinOp) and isinstance(a0_raw.op, (ast.Div, ast.Mult)):
+            l_, r_ = a0_raw.left, a0_raw.right
+            mat_side = l_ if "matrix_to_decompose" in src(cgd.expand(l_)) else (r_ if "matrix_to_decompose" in src(cgd.expand(r_)) else None)
+            sc_side = r_ if mat_side is l_ else (l_ if mat_side is r_ else None)
+            if mat_side is not None and sc_side is not None and "matrix_to_decompose" not in src(sc_side) + ("" if isinstance(sc_side, ast.Constant) else ""):
+                scale_txt = src(sc_side)
+                e = cgd.expand(mat_side)
+                sg = {k.arg: k.value for k in eg[0].keywords}.get("sigma")
+                ctx.instance("PARITY")
+                if sg is None:
+                    ctx.ok("PARITY", "C14.decomp.scale", "the operator is rescaled and no spectral shift is used", dw)
+                else:
+                    sg_e = cgd.expand(sg)
+                    names_sc = {n.id for n in ast.walk(sc_side) if isinstance(n, ast.Name)}
+                    uses = bool(names_sc & {n.id for n in ast.walk(sg_e) if isinstance(n, ast.Name)}) or \
+                        (isinstance(sc_side, ast.Constant) and src(sc_side) in src(sg_e))
+                    if uses:
+                        ctx.inconclusive("PARITY", "C14.decomp.scale", "operator and spectral shift are both rescaled (factors not compared)", dw,
+                                         witness=f"scale {scale_txt}, sigma {src(sg_e)[:80]}")
+                    else:
+                        ctx.violate("PARITY", "C14.decomp.scale", "eigs is given the rate matrix rescaled by a scalar while the spectral shift `sigma` "
+                                    "stays in the original units: shift-invert then looks for eigenvalues near sigma*scale of the original "
+                                    "matrix, so for a negative shift the returned pairs come from another part of the spectrum (the largest "
+                                    "returned eigenvalue need not be 0, its vector is not the stationary density)", dw, src(eg[0])[:160],
+                                    witness=f"operator {src(a0_raw)[:60]}, sigma={src(sg)}")
 
         def parity_of(expr):
             """number of transpositions applied to self.matrix_to_decompose inside expr (None if the matrix does not occur)"""
